@@ -736,6 +736,8 @@ pub struct StaticReport {
     pub lookups: u64,
     /// maximize calls made for S4 (every row in table order, in reverse order, and after neighbouring misses)
     pub lookup_queries: u64,
+    /// S4 pass 0: forked children, each with another first lookup of the process
+    pub fresh_process_children: u64,
     pub lookups_found: u64,
     /// tables where *no* row was reachable through the lookup (not attributable to ordering;
     /// reported, not gating)
@@ -948,6 +950,7 @@ pub fn static_checks(comp: &BTreeMap<String, Val>, rf: &Reference) -> StaticRepo
     let mut rows_tried = 0u64;
     let mut lookups_found = 0u64;
     let mut unreachable_tables = vec![];
+    let mut all_probes: Vec<(&str, Vec<Probe>)> = vec![];
     for t in LIKELY_TABLES {
         let c = as_array(comp.get(t)).unwrap_or(&[]);
         let mut probes: Vec<Probe> = vec![];
@@ -987,22 +990,105 @@ pub fn static_checks(comp: &BTreeMap<String, Val>, rf: &Reference) -> StaticRepo
             let Some(expect) = expect else { continue };
             probes.push(Probe { idx: i, key: k, ask, expect });
         }
+        all_probes.push((t, probes));
+    }
+
+    // pass 0 (round 9): **fresh processes.** Everything below runs in this one process, whose very
+    // first lookup is always the same; a lookup that builds an index or a cache on first use
+    // (OnceLock, Lazy, thread_local) may build it differently depending on which lookup comes first,
+    // or on which thread. So before this process has looked anything up, a child is forked for each
+    // of a number of first lookups (rows of every table, keys no table has, on the main thread and
+    // on a thread of its own); in each child that lookup is made first and then every row is asked
+    // for once. What the children miss is merged into the verdict below.
+    let mut fresh_missed: BTreeMap<(usize, usize), String> = BTreeMap::new();
+    let mut fresh_children = 0u64;
+    {
+        let mut primers: Vec<(String, Triple, bool)> = vec![];
+        for (t, probes) in &all_probes {
+            let n = probes.len();
+            for (label, i) in [("first", 0usize), ("middle", n / 2), ("last", n.saturating_sub(1))] {
+                if let Some(p) = probes.get(i) {
+                    primers.push((format!("the {} row of {}", label, t), p.ask, false));
+                }
+            }
+            if let Some(p) = probes.get(n / 3) {
+                primers.push((format!("a row of {} looked up on another thread", t), p.ask, true));
+            }
+        }
+        if let (Some(zzz), Some(s0), Some(r0)) = (subtags::Language::from_bytes(b"zzz").ok(), all_scripts.first(), all_regions.first()) {
+            primers.push(("a language no table has".into(), (zzz, None, None), false));
+            primers.push(("a language no table has, with a region".into(), (zzz, None, Some(*r0)), false));
+            primers.push(("a language no table has, with a script".into(), (zzz, Some(*s0), None), false));
+            primers.push(("the undetermined language alone".into(), (und, None, None), false));
+            primers.push(("an identifier that is already complete".into(), (zzz, Some(*s0), Some(*r0)), false));
+        }
+        for (pi, (label, q, other_thread)) in primers.iter().enumerate() {
+            let r = crate::isolate::fork_call(|| {
+                if *other_thread {
+                    let q = *q;
+                    let _ = std::thread::spawn(move || {
+                        let _ = std::panic::catch_unwind(|| ls::maximize(q.0, q.1, q.2));
+                    })
+                    .join();
+                } else {
+                    let _ = answer(*q);
+                }
+                let mut out: Vec<u8> = vec![];
+                for (ti, (_t, probes)) in all_probes.iter().enumerate() {
+                    for p in probes {
+                        if answer(p.ask).as_ref() != Some(&p.expect) {
+                            out.extend_from_slice(&(ti as u32).to_le_bytes());
+                            out.extend_from_slice(&(p.idx as u32).to_le_bytes());
+                        }
+                    }
+                }
+                out.extend_from_slice(&u32::MAX.to_le_bytes()); // end marker: the child got this far
+                out
+            });
+            let _ = pi;
+            match r {
+                Ok(bytes) if bytes.len() >= 4 && bytes[bytes.len() - 4..] == u32::MAX.to_le_bytes() => {
+                    fresh_children += 1;
+                    for c in bytes[..bytes.len() - 4].chunks_exact(8) {
+                        let ti = u32::from_le_bytes(c[0..4].try_into().unwrap()) as usize;
+                        let idx = u32::from_le_bytes(c[4..8].try_into().unwrap()) as usize;
+                        fresh_missed
+                            .entry((ti, idx))
+                            .or_insert_with(|| format!("asked in a fresh process whose first lookup was {}", label));
+                    }
+                }
+                // no child (fork unavailable): the pass is skipped, not failed
+                _ => {}
+            }
+        }
+        lookups += fresh_children * all_probes.iter().map(|(_, p)| p.len() as u64 + 1).sum::<u64>();
+    }
+    let fresh_note: Vec<String> = fresh_missed.values().cloned().collect();
+    let _ = &fresh_note;
+
+    for (ti, (t, probes)) in all_probes.iter().enumerate() {
+        let t = *t;
         let tried = probes.len() as u64;
         // found = the lookup answers with exactly the value stored in this row (an answer taken
         // from a less specific table after a failed search does not count)
         // pass 1: table order, cold
-        let mut missed: BTreeMap<usize, &'static str> = BTreeMap::new();
-        for p in &probes {
+        let mut missed: BTreeMap<usize, String> = BTreeMap::new();
+        for ((fti, idx), how) in &fresh_missed {
+            if *fti == ti {
+                missed.insert(*idx, how.clone());
+            }
+        }
+        for p in probes {
             lookups += 1;
             if answer(p.ask).as_ref() != Some(&p.expect) {
-                missed.entry(p.idx).or_insert("asked in table order");
+                missed.entry(p.idx).or_insert_with(|| "asked in table order".to_string());
             }
         }
         // pass 2: reverse order
         for p in probes.iter().rev() {
             lookups += 1;
             if answer(p.ask).as_ref() != Some(&p.expect) {
-                missed.entry(p.idx).or_insert("asked in reverse table order");
+                missed.entry(p.idx).or_insert_with(|| "asked in reverse table order".to_string());
             }
         }
         // pass 3: each row right after a neighbouring miss
@@ -1020,7 +1106,7 @@ pub fn static_checks(comp: &BTreeMap<String, Val>, rf: &Reference) -> StaticRepo
             v.dedup();
             v
         };
-        for p in &probes {
+        for p in probes {
             let mut misses: Vec<Vec<u128>> = vec![];
             if two_keys {
                 // same first key, a second key the table does not list for it: the largest and
@@ -1047,7 +1133,7 @@ pub fn static_checks(comp: &BTreeMap<String, Val>, rf: &Reference) -> StaticRepo
                 let _ = answer(q);
                 lookups += 1;
                 if answer(p.ask).as_ref() != Some(&p.expect) {
-                    missed.entry(p.idx).or_insert("asked right after a lookup next to it");
+                    missed.entry(p.idx).or_insert_with(|| "asked right after a lookup next to it".to_string());
                 }
             }
         }
@@ -1056,7 +1142,7 @@ pub fn static_checks(comp: &BTreeMap<String, Val>, rf: &Reference) -> StaticRepo
         // memo or narrowed bounds are shared between tables (seeded `m30`: "language L has no rows
         // in LANG_REGION" believed for LANG_SCRIPT) finds every row after any lookup in its own
         // table and loses it after a probe of the neighbouring one
-        for p in &probes {
+        for p in probes {
             let (l, sc, rg) = p.ask;
             // every combination of {the row's script, none, a few known scripts} with {the row's
             // region, none, a few known regions} other than the row's own key
@@ -1077,7 +1163,7 @@ pub fn static_checks(comp: &BTreeMap<String, Val>, rf: &Reference) -> StaticRepo
                 let _ = answer(q);
                 lookups += 1;
                 if answer(p.ask).as_ref() != Some(&p.expect) {
-                    missed.entry(p.idx).or_insert("asked right after a lookup that shares its first subtag and is answered from another table");
+                    missed.entry(p.idx).or_insert_with(|| "asked right after a lookup that shares its first subtag and is answered from another table".to_string());
                 }
             }
         }
@@ -1115,6 +1201,7 @@ pub fn static_checks(comp: &BTreeMap<String, Val>, rf: &Reference) -> StaticRepo
         ints_decoded,
         lookups: rows_tried,
         lookup_queries: lookups,
+        fresh_process_children: fresh_children,
         lookups_found,
         unreachable_tables,
     }
